@@ -110,6 +110,58 @@ CLAIMED = {
         design="7 C16", technique="Lean 4 proof (invariants of a small-step lifecycle model over all schedules and fault combinations) + generated constants/clauses + gated differential correspondence",
         note=NOTE_COMMON + "Partial: an executor thread still writing after its coroutine was cancelled cannot be exhibited by the model; "
              "a failing *periodic* save (outside the property's fault positions) is reported as an observation only."),
+    "C04": dict(
+        text="Lean theorems yield_is_decoded, missing_node_names_it, missing_child_names_it, rejected_line_changes_nothing for "
+             "EVERY line, version, state and fault schedule (a third traversal of the generated dispatch: the Faithful judgement), "
+             "other_records_untouched (a message changes at most the record of the node it is from, or adds a fresh placeholder), "
+             "send_keeps_registry, and the explicit registry update per kind of report (node/child presentation, set, battery, "
+             "sketch name/version, heartbeat incl. the rejected-payload cases); tied to the real Gateway on the registry view by "
+             "histories with interleaved re-presentations, with an independently maintained reference registry as oracle.",
+        design="7 C04", technique="Lean 4 proof (outcome-faithfulness judgement over the generated dispatch, frame invariant, exact handler semantics) + differential correspondence",
+        note=NOTE_COMMON + "The history-level statement 'the stored value is the payload of the last accepted set since the last "
+             "presentation' is composed from the step theorems by the oracle's reference registry, not by one Lean induction."),
+    "C06": dict(
+        text="Lean theorems reactions_not_parked (no receive ever adds to the sleep buffer: every reaction call site passes "
+             "message_buffer=False, generated), only_presentation_markers_added, the exact version-query rule of the decorator "
+             "(no_query_when_known, query_when_unknown, query_after_error, no_query_for_log_and_ready, version_reply_needs_no_query), "
+             "and one theorem per reaction (config, time incl. calendar.timegm, value reply / no value, discover broadcast, reboot) "
+             "plus the no-write theorems (types without handler per version, reports); tied to the real Gateway on the writes view "
+             "with the reaction table restated in Python as oracle.",
+        design="7 C06", technique="Lean 4 proof (frame invariants by generic traversal, exact decorator and handler semantics) + generated flags/chains + differential correspondence",
+        note=NOTE_COMMON + "'No other received message produces any write' is proved per handler / per type table, and checked "
+             "globally by the oracle; a single Lean characterisation of all writes of a step is not stated. time.localtime() is "
+             "an input of the step (the harness substitutes the `time` name inside protocol_14 in its own process)."),
+    "C07": dict(
+        text="Lean theorems send_parks / send_direct, parked_value_is_latest, the buffer invariant along all histories "
+             "(no key twice, every entry a set command under its own key), wake_releases (exactly that node's entries, once each, "
+             "in buffer order, removed; others kept: after_wake_only_others), wake_signals from the generated chains (2.0/2.1 "
+             "heartbeat response, 2.2 pre-sleep; none in 1.x), other_nodes_untouched for every message/version/fault schedule; "
+             "tied to the real Gateway by sequential interleavings of sends and wake/non-wake messages.",
+        design="7 C07", technique="Lean 4 proof (dictionary invariants over histories, exact flush semantics) + generated chains/flags + differential correspondence",
+        note=NOTE_COMMON + "Stated about what a wake releases and about sends to nodes not known to be sleeping; parked vs direct "
+             "sends after a re-presentation are not ordered (DESIGN section 6)."),
+    "C08": dict(
+        text="Lean theorem flush_under_faults: under EVERY fault schedule the release loop writes a prefix of the node's entries "
+             "successfully and removes exactly those, then either finishes or reports the transport error with the failed entry and "
+             "all later ones still buffered; conservation (every snapshot entry is written-and-removed or unwritten-and-kept, other "
+             "nodes untouched), eventual_release; tied to the real Gateway by complete enumeration of failing positions.",
+        design="7 C08", technique="Lean 4 proof (induction over the release loop for all fault schedules) + fault enumeration on the real code",
+        note=NOTE_COMMON + "The order 'write, then remove' is what the proof rests on (flushList_cons_fail)."),
+    "C12": dict(
+        text="Lean theorem send_trichotomy: for every accepted command and every state/flag/fault, send ends with the line handed "
+             "to the transport, or the message held for a destination known to be sleeping, or the transport error; parked_is_released, "
+             "not_a_message, only_set_is_ever_held; no foreign exception by C03's send_lib_only; the outgoing handler table is generated "
+             "(a command without handler breaks every_command_has_a_handler). Tied to the real Gateway over all commands x types x flag x destination state.",
+        design="7 C12", technique="Lean 4 proof (exhaustive case analysis of the outgoing dispatch over generated tables) + differential correspondence",
+        note=NOTE_COMMON + "Messages outside the codec's accept set (command not 0-4) are outside the property."),
+    "C19": dict(
+        text="Lean theorems tables_monotone, decode_version_independent, chains_agree_same_line (generated chains), "
+             "step_stable_same_line (for a message whose type exists in the older protocol the newer one on the same line runs "
+             "literally the same handler computation, except the 2.2 heartbeat response), heartbeat_exception, across_lines_commands / "
+             "across_lines_internal / decorator_transparent for 1.x -> 2.x; tied to two real gateways fed the same history under every ordered pair of versions.",
+        design="7 C19", technique="Lean 4 proof (equality of dispatched computations from generated tables, by decide and rewriting) + paired differential runs",
+        note=NOTE_COMMON + "History-level stability follows from step equality because the handlers read the active protocol only "
+             "through the dispatch version; that last step (state independence of st.proto) is checked by the paired runs, not yet by a Lean non-interference proof."),
 }
 
 PENDING_REASON = "check not built yet in this round (model and theorems in progress); see DESIGN.md section 7"
